@@ -103,5 +103,8 @@ func genC20Skip(g *Gen) error {
 	if err := genC20Idx(g); err != nil { // reader-construction layer (c20idx.go)
 		return err
 	}
-	return genC20TC(g) // time cluster (c20tc.go)
+	if err := genC20TC(g); err != nil { // time cluster (c20tc.go)
+		return err
+	}
+	return genC20State(g) // struct fields and receiver writes of readers / conditions (c20state.go)
 }
